@@ -132,7 +132,11 @@ class RationalQuadraticSpline(AbstractBijection):
         a = (yk1 - yk) * (sk - derivatives[k]) + y_delta_s_term
         b = (yk1 - yk) * derivatives[k] - y_delta_s_term
         c = -sk * (y_robust - yk)
-        sqrt_term = jnp.sqrt(b**2 - 4 * a * c)
+        # The discriminant is >= 0 analytically, but can round to a small negative value
+        # (e.g. in float32 at the upper end of the interval), which would give nan.
+        discriminant = b**2 - 4 * a * c
+        is_pos = discriminant > 0
+        sqrt_term = jnp.where(is_pos, jnp.sqrt(jnp.where(is_pos, discriminant, 1)), 0)
         xi = (2 * c) / (-b - sqrt_term)
         x = xi * (xk1 - xk) + xk
 
